@@ -9,6 +9,7 @@ EXTENDS FormsModel
 CONSTANTS Focus,     \* set of field indices that act as focus
           MaxSteps,  \* number of fill steps per case
           Kinds2,    \* step kinds available after the first step: subset of {"set", "subset", "refill", "same"}
+          MaxV,      \* the focus field's first step chooses among the first MaxV values of its repertoire
           MaxInit,   \* initial values: the first MaxInit entries of the focus field's repertoire
           FreeAll,   \* TRUE: initial lock flag and second step are chosen freely; FALSE: they rotate with the other choices
           Emit
@@ -47,7 +48,7 @@ Step == /\ Len(ops) < MaxSteps
              /\ ((~FreeAll /\ ops # <<>>) \/ Len(ops) >= 2 =>         \* rotated, not chosen (a third step always is)
                    /\ kind = Pick(KindSeq, focus + ops[Len(ops)].v + Len(ops) + (IF ops[Len(ops)].fields[focus].lock THEN 2 ELSE 0))
                    /\ (kind \in {"set", "subset"} => l = ((focus + ops[Len(ops)].v) % 2 = 0)))
-             /\ v <= Len(SetVals(Fields[focus]))
+             /\ v <= Len(SetVals(Fields[focus])) /\ (ops = <<>> => v <= MaxV)
              /\ (kind \in {"refill", "same"} => v = 1 /\ l)            \* no parameters
              /\ (kind \in {"set", "subset"} /\ ops # <<>> => v = (ops[Len(ops)].v % Len(SetVals(Fields[focus]))) + 1) \* a later set step takes the next value
              /\ LET op == MkOp(kind, focus, v, l, cur)
